@@ -35,7 +35,7 @@ WEAK = {
     "InitMarksPartsHad": {"PeerStateSound", "GossipComplete"},
     "VoteMarkedBeforeRoundCheck": {"PeerStateSound"},
 }
-GAPS = ["G1", "G2", "G4", "G5", "G6"]
+GAPS = ["G1", "G2", "G3", "G4", "G5", "G6"]     # G3: reachability witness (NoG3AtRest must be refuted), the others: un-exempted
 ROUTINES = ["data", "votes", "maj23"]
 ENVS = ["peertimeout", "peergetsvote", "peerclaim"]
 
@@ -211,10 +211,10 @@ def run(ctx):
         nonvac["Weak_" + k] = sorted(names & WEAK[k])[0]
     for g, f in f_gap:
         r = f.result()
-        if not any(x["name"] == "GossipComplete" for x in r.violations):
+        if not any(x["name"] in ("GossipComplete", "NoG3AtRest") for x in r.violations):
             ctx.save_log("gap_" + g, r.out)
             raise Undecided("vacuity: with gap %s not exempted GossipComplete is not refuted: the gap is not real in the model" % g)
-        nonvac["gap " + g + " is real in the model"] = "GossipComplete"
+        nonvac["gap " + g + " is real in the model"] = r.violations[0]["name"]
     if f_lw is not None:
         r = f_lw.result()
         if not any(x["name"] == "Starvation" for x in r.violations):
@@ -275,7 +275,8 @@ def run(ctx):
         "of whole iterations)",
         "send never fails (a full channel queue / TrySend returning false is not exercised)",
         "four validators of power 1, two parts per block, rounds 0..2, heights 1..4; bit-array sizes are C17's subject",
-        "the named gaps G1, G2, G4, G5, G6 (TMGossip.tla) are exempt from GossipComplete: they are what the real reactor does not serve",
+        "the named gaps G1, G2, G4, G5, G6 (TMGossip.tla) are exempt from GossipComplete, G3 is outside its notion of 'holds': they are "
+        "what the real reactor does not serve; each is observed on the real code in this run (named_gaps_observed_on_real_code_at_rest)",
         "a TLC verdict is accepted only if the verdict file covers every trace line",
     ], len(verdict.new))
     pool.shutdown(wait=False)
